@@ -100,7 +100,9 @@ def parse(s: str, pow_right=False):
 LIMIT_BITS = 20000
 
 
-def ev(t, scope):
+def ev(t, scope, pyneg=False):
+    """arithmetic value of a tree; `pyneg`: follow CPython through a negative exponent (`int(a**b)` goes through floating
+    point and evaluation CONTINUES with that number) — used only to decide whether the real code can finish the evaluation"""
     k = t[0]
     if k == "lit":
         return t[1]
@@ -109,13 +111,13 @@ def ev(t, scope):
             raise Undefined(t[1])
         return scope[t[1]]
     if k == "grp":
-        return ev(t[1], scope)
+        return ev(t[1], scope, pyneg)
     if k == "isqrt":
-        a = ev(t[1], scope)
+        a = ev(t[1], scope, pyneg)
         if a < 0:
             raise Undefined("isqrt")
         return math.isqrt(a)
-    a, b = ev(t[1], scope), ev(t[2], scope)
+    a, b = ev(t[1], scope, pyneg), ev(t[2], scope, pyneg)
     if k == "+":
         return a + b
     if k == "-":
@@ -128,6 +130,11 @@ def ev(t, scope):
         return a // b
     if k == "^":
         if b < 0:
+            if pyneg:
+                try:
+                    return int(a**b)
+                except (OverflowError, ZeroDivisionError) as e:
+                    raise Undefined("negexp") from e
             raise Undefined("negexp")
         if b > 4000 or b * max(1, abs(a).bit_length()) > LIMIT_BITS:
             raise TooBig  # (Lean's runtime refuses huge exponents even for bases 0, 1, -1)
@@ -150,7 +157,7 @@ def feasible(s: str, scope: dict) -> bool:
         # (both associativities of a power chain must stay computable, so that a parser that regroups it
         #  is caught by the comparison instead of hanging the harness)
         try:
-            ev(tree, scope)
+            ev(tree, scope, True)
         except TooBig:
             return False
         except Undefined:
@@ -166,7 +173,7 @@ def _feasible_partial(t, scope) -> bool:
     subs = [x for x in t[1:] if isinstance(x, tuple)]
     for s in subs:
         try:
-            ev(s, scope)
+            ev(s, scope, True)
         except TooBig:
             return False
         except Undefined:
